@@ -180,6 +180,8 @@ pub struct DevInner {
     pub calls: u64,
     pub fault_at: Option<u64>,
     /// fail the next device flush of this operation (instead of the k-th call)
+    /// every device call from the fault_at-th on fails (the medium went away), not only that one
+    pub fault_sticky: bool,
     pub fault_flush: bool,
     /// the injected failure is a transient "interrupted" error
     pub fault_intr: bool,
@@ -220,6 +222,7 @@ impl SimDevice {
             wlog: Vec::new(),
             calls: 0,
             fault_at: None,
+            fault_sticky: false,
             fault_flush: false,
             fault_intr: false,
             fault_hit: None,
@@ -269,10 +272,12 @@ impl DevInner {
             return Err(DevError { kind: if self.fault_intr { DevErrKind::Interrupted } else { DevErrKind::Injected }, id });
         }
         if let Some(k) = self.fault_at {
-            if self.calls == k {
+            if self.calls == k || (self.fault_sticky && self.calls > k) {
                 let id = self.next_err_id;
                 self.next_err_id += 1;
-                self.fault_hit = Some(call.clone());
+                if self.fault_hit.is_none() {
+                    self.fault_hit = Some(call.clone());
+                }
                 self.log.push(call);
                 return Err(DevError { kind: DevErrKind::Injected, id });
             }
